@@ -9,7 +9,7 @@ CONSTANTS
   DevDup = TRUE
   DevClash = TRUE
   DevBmDang = TRUE
-  Allowed = {"ok", "bookmark.chain", "dangling.capture", "dangling.capture+bookmark.chain", "dangling.capture.pageorder", "dangling.capture.pageorder+bookmark.chain", "dangling.capture+dangling.capture.pageorder", "dangling.capture+dangling.capture.pageorder+bookmark.chain", "panic.empty0"}
+  Allowed = {"ok", "bookmark.chain", "dangling.capture", "dangling.capture.pageorder", "panic.empty0"}
   Emit = TRUE
   EmitMod = 1
 INVARIANTS Refines Consistent FunctionForm RepairedRefines EmitInv
